@@ -550,47 +550,61 @@ func (c *Ctx) rulesR4loopexit() {
 	}
 	// reference point: the unconditional subscription disposal
 	var ref ssa.Instruction
-	for _, s := range c.sitesIn(dd, pm+":Subscriptions.dispose") {
-		ref = s
+	hosted := c.hostedFns(dd)
+	for _, hf := range hosted {
+		for _, s := range c.sitesIn(hf, pm+":Subscriptions.dispose") {
+			ref = s
+		}
 	}
 	if ref == nil {
 		c.undecided("C13.loopexit: doDispose no longer calls Subscriptions.dispose")
 		return
 	}
-	refG := guardsOf(ref.Block())
+	refG := c.guardsHosted(ref, dd)
 	n := 0
-	for _, b := range dd.Blocks {
-		for _, ins := range b.Instrs {
-			var target *ssa.Function
-			var at ssa.Instruction
-			switch x := ins.(type) {
-			case *ssa.Go:
-				if mc, ok := x.Call.Value.(*ssa.MakeClosure); ok {
-					target, at = mc.Fn.(*ssa.Function), x
-				} else if g := x.Call.StaticCallee(); g != nil {
-					target, at = g, x
+	for _, hf := range hosted {
+		for _, b := range hf.Blocks {
+			for _, ins := range b.Instrs {
+				var target *ssa.Function
+				var at ssa.Instruction
+				switch x := ins.(type) {
+				case *ssa.Go:
+					if mc, ok := x.Call.Value.(*ssa.MakeClosure); ok {
+						target, at = mc.Fn.(*ssa.Function), x
+					} else if g := x.Call.StaticCallee(); g != nil {
+						target, at = g, x
+					}
+				case *ssa.Call:
+					if g := x.Call.StaticCallee(); g != nil && g.Blocks != nil {
+						target, at = g, x
+					}
+					if bi, ok := x.Call.Value.(*ssa.Builtin); ok && bi.Name() == "close" && loadOfField(x.Call.Args[0]) == fHS {
+						target, at = nil, x
+						n++
+						c.loopExitGuards(at, refG, fRun, dd)
+						continue
+					}
+					if calleeName(&x.Call) == "closeSafe" && len(x.Call.Args) == 1 && loadOfField(x.Call.Args[0]) == fHS {
+						n++
+						c.loopExitGuards(x, refG, fRun, dd)
+						continue
+					}
 				}
-			case *ssa.Call:
-				if g := x.Call.StaticCallee(); g != nil && g.Blocks != nil {
-					target, at = g, x
-				}
-				if bi, ok := x.Call.Value.(*ssa.Builtin); ok && bi.Name() == "close" && loadOfField(x.Call.Args[0]) == fHS {
-					target, at = nil, x
-					n++
-					c.loopExitGuards(at, refG, fRun)
+				if target == nil || !closesHS(target) {
 					continue
 				}
-				if calleeName(&x.Call) == "closeSafe" && len(x.Call.Args) == 1 && loadOfField(x.Call.Args[0]) == fHS {
-					n++
-					c.loopExitGuards(x, refG, fRun)
-					continue
+				isH := false
+				for _, h2 := range hosted {
+					if h2 == target {
+						isH = true
+					}
 				}
+				if isH {
+					continue // a hosted helper: its own body is visited
+				}
+				n++
+				c.loopExitGuards(at, refG, fRun, dd)
 			}
-			if target == nil || !closesHS(target) {
-				continue
-			}
-			n++
-			c.loopExitGuards(at, refG, fRun)
 		}
 	}
 	if n < 1 {
@@ -598,9 +612,9 @@ func (c *Ctx) rulesR4loopexit() {
 	}
 }
 
-func (c *Ctx) loopExitGuards(at ssa.Instruction, refG []Guard, fRun *types.Var) {
+func (c *Ctx) loopExitGuards(at ssa.Instruction, refG []Guard, fRun *types.Var, root *ssa.Function) {
 	var extra []string
-	for _, g := range guardsOf(at.Block()) {
+	for _, g := range c.guardsHosted(at, root) {
 		found := false
 		for _, r := range refG {
 			if r.Cond == g.Cond && r.Pol == g.Pol {
@@ -1155,4 +1169,202 @@ func (c *Ctx) rulesR4errmulti() {
 	if n < 1 {
 		c.undecided("C15.errmulti: no Supervisor.Err*State handler reading e.Args found")
 	}
+}
+
+// rulesR4hlock: C13.hlock
+func (c *Ctx) rulesR4hlock() {
+	c.rule("C13.hlock", "doDispose invokes the registered dispose handlers with none of the machine's mutexes held: in the function that calls them (and up the chain of its private single-caller hosts) every Lock/RLock that can reach the invocation is released by an explicit Unlock/RUnlock on every path to it (a deferred release runs too late). A dispose handler is user code; any machine method it calls that takes one of those mutexes would block on a lock its own goroutine holds, and WhenDisposed never closes")
+	dd := c.fnOpt(pm + ":Machine.doDispose")
+	fDH := c.field(pm, "Machine", "disposeHandlers")
+	if dd == nil || fDH == nil {
+		c.undecided("C13.hlock: doDispose / disposeHandlers not found")
+		return
+	}
+	hosted := c.hostedFns(dd)
+	isHosted := map[*ssa.Function]bool{}
+	for _, h := range hosted {
+		isHosted[h] = true
+	}
+	fromDH := func(v ssa.Value) bool {
+		return derives(v, func(x ssa.Value) bool {
+			if loadOfField(x) == fDH {
+				return true
+			}
+			if call, ok := x.(*ssa.Call); ok {
+				if g := call.Call.StaticCallee(); g != nil && isHosted[g] {
+					for _, r := range returnsOf(g) {
+						for _, rv := range retVals(r) {
+							if derives(rv, func(y ssa.Value) bool { return loadOfField(y) == fDH }) {
+								return true
+							}
+						}
+					}
+				}
+			}
+			return false
+		})
+	}
+	// the invocation sites
+	var sites []ssa.Instruction
+	for _, hf := range hosted {
+		for _, b := range hf.Blocks {
+			for _, ins := range b.Instrs {
+				call, ok := ins.(*ssa.Call)
+				if !ok || call.Call.IsInvoke() || call.Call.StaticCallee() != nil {
+					continue
+				}
+				if u, ok := call.Call.Value.(*ssa.UnOp); ok && u.Op == token.MUL {
+					if ia, ok := u.X.(*ssa.IndexAddr); ok && fromDH(ia.X) {
+						sites = append(sites, ins)
+					}
+				}
+			}
+		}
+	}
+	if len(sites) == 0 {
+		c.undecided("C13.hlock: no invocation of the dispose handlers found in doDispose")
+		return
+	}
+	n := 0
+	for _, site := range sites {
+		at := site
+		for d := 0; d < 4; d++ {
+			f := at.Parent()
+			for _, b := range f.Blocks {
+				for _, ins := range b.Instrs {
+					call, ok := ins.(*ssa.Call)
+					if !ok {
+						continue
+					}
+					id, op := lockOp(&call.Call)
+					if id == "" || !(op == "Lock" || op == "RLock") || !canReach(ins, at) || ins == at {
+						continue
+					}
+					n++
+					rel := "Unlock"
+					if op == "RLock" {
+						rel = "RUnlock"
+					}
+					released := allPathsFromPassThrough(ins, func(x ssa.Instruction) bool {
+						if x == at {
+							return false
+						}
+						c2, ok := x.(*ssa.Call)
+						if !ok {
+							return false
+						}
+						id2, op2 := lockOp(&c2.Call)
+						return id2 == id && op2 == rel
+					}) || !reachesWithout(ins, at, id, rel)
+					c.check(released, "C13.hlock", fmt.Sprintf("%s: %s.%s is released before the dispose handlers run", funcKey(f), shortLock(id), op), ins.Pos(),
+						"the lock is still held (its release is deferred or missing) when the dispose handlers are invoked: a handler calling a machine method that needs it deadlocks the disposal")
+				}
+			}
+			if f == dd || f.Parent() != nil {
+				break
+			}
+			cs, vals := c.allCallersOf(f)
+			if len(cs) != 1 || len(vals) != 0 {
+				break
+			}
+			at = cs[0].Instr
+		}
+	}
+	c.ok("C13.hlock", "doDispose invokes the dispose handlers", sites[0].Pos(), fmt.Sprintf("%d invocation site(s), %d lock acquisitions that can reach them examined", len(sites), n))
+}
+
+// reachesWithout: a path leads from `from` to `to` that passes no explicit
+// release (op rel) of lock id.
+func reachesWithout(from, to ssa.Instruction, id, rel string) bool {
+	isRel := func(x ssa.Instruction) bool {
+		c2, ok := x.(*ssa.Call)
+		if !ok {
+			return false
+		}
+		id2, op2 := lockOp(&c2.Call)
+		return id2 == id && op2 == rel
+	}
+	// scan the rest of from's block
+	fb := from.Block()
+	start := instrIndex(from) + 1
+	seen := map[*ssa.BasicBlock]bool{}
+	var walk func(b *ssa.BasicBlock, i int) bool
+	walk = func(b *ssa.BasicBlock, i int) bool {
+		for ; i < len(b.Instrs); i++ {
+			x := b.Instrs[i]
+			if x == to {
+				return true
+			}
+			if isRel(x) {
+				return false
+			}
+		}
+		for _, s := range b.Succs {
+			if seen[s] {
+				continue
+			}
+			seen[s] = true
+			if walk(s, 0) {
+				return true
+			}
+		}
+		return false
+	}
+	return walk(fb, start)
+}
+
+// hostedFns: root and the private single-caller helpers it was split into
+// (transitively; functions started with go are not included).
+func (c *Ctx) hostedFns(root *ssa.Function) []*ssa.Function {
+	out := []*ssa.Function{root}
+	for _, g := range c.Funcs {
+		if g == root || g.Parent() != nil || g.Pkg != root.Pkg || g.Object() == nil || g.Object().Exported() {
+			continue
+		}
+		if c.hostedBy(g, root) {
+			out = append(out, g)
+		}
+	}
+	return out
+}
+
+// guardsHosted: the branch outcomes that dominate ins, including those that
+// dominate the call sites through which its (single-caller, private) function
+// is reached from root.
+func (c *Ctx) guardsHosted(ins ssa.Instruction, root *ssa.Function) []Guard {
+	gs := guardsOf(ins.Block())
+	f := topFunc(ins.Parent())
+	if ins.Parent() != f {
+		// a closure: the guards at its creation site do not bind its execution
+		return gs
+	}
+	for d := 0; d < 4 && f != root; d++ {
+		sites, vals := c.allCallersOf(f)
+		if len(sites) != 1 || len(vals) != 0 {
+			break
+		}
+		gs = append(gs, guardsOf(sites[0].Instr.Block())...)
+		f = topFunc(sites[0].Fn)
+	}
+	return gs
+}
+
+func (c *Ctx) requireGuardsHosted(rule, keyPrefix string, site ssa.Instruction, root *ssa.Function, preds ...guardPred) bool {
+	gs := c.guardsHosted(site, root)
+	all := true
+	for _, p := range preds {
+		ok := false
+		for _, g := range gs {
+			if p.Match(g) {
+				ok = true
+				break
+			}
+		}
+		c.check(ok, rule, keyPrefix+" guard["+p.Desc+"]", site.Pos(),
+			fmt.Sprintf("site must be dominated by %s; dominating conditions: %v", p.Desc, guardStrings(gs)))
+		if !ok {
+			all = false
+		}
+	}
+	return all
 }
